@@ -180,8 +180,9 @@ func VerifC08_BatchExpiry() {
 	e := newSvEnv()
 	one, w := big.NewInt(1), verifPow2(40)
 	dep1, dep2 := verifIntIn("deposit1", one, w), verifIntIn("deposit2", one, w)
-	e.bind(e.p1, sdkmath.NewInt(10), dep1, sdkmath.LegacyDec{}, 5, true)
-	e.bind(e.p2, sdkmath.NewInt(10), dep2, sdkmath.LegacyDec{}, 5, true)
+	// a binding may have been disabled (by its owner or by an earlier slash) after the requests were issued
+	e.bind(e.p1, sdkmath.NewInt(10), dep1, sdkmath.LegacyDec{}, 5, verifBool("available1"))
+	e.bind(e.p2, sdkmath.NewInt(10), dep2, sdkmath.LegacyDec{}, 5, verifBool("available2"))
 	repeated := verifChoice("repeated", 2) == 1
 	rc := e.context([]sdk.AccAddress{e.p1, e.p2}, sdkmath.NewInt(1000), 1, types.RUNNING, repeated)
 	fee1, fee2 := verifIntIn("fee1", one, w), verifIntIn("fee2", one, w)
